@@ -58,7 +58,9 @@ theorem compute_accuracy_rows (rows : List Row) :
     · rw [if_pos h, if_pos h, npDiv_of_ne (by exact_mod_cast (ne_of_gt h))]
     · rw [if_neg h, if_neg h]
   simp only [key]
-  rfl
+  first
+    | rfl
+    | (simp only [Int.add_comm, Int.min_comm, Int.max_comm]; rfl)       -- operands of a commutative op exchanged
 
 /-- **`compute_accuracy` as translated = the hand model** for all equally long count arrays (any length incl. empty,
     zeros, inconsistent or negative counts): precision / recall / accuracy with their zero-denominator guards -/
@@ -108,7 +110,9 @@ theorem compute_err_score_rows (rows : List Row) :
     simp only [PyMP.vsum, sumBy, decide_eq_true_eq, if_neg hq, PyMP.vsub, PyMP.stackMin_eq_len, PyMP.stackMax_eq_len,
       PyMP.bcast_eq_len, List.length_map, List.length_zipWith, Nat.min_self, PyMP.zipWith_cols, PyMP.maskFill_cols,
       ok_bind, divNp_eq, npDiv_of_ne hq, ofInt]
-    rfl
+    first
+      | rfl
+      | (simp only [Int.add_comm, Int.min_comm, Int.max_comm]; rfl)     -- operands of a commutative op exchanged
 
 /-- **`compute_err_score` as translated = the hand model** for all equally long count arrays: E_sub, E_miss, E_fa,
     E_tot from the elementwise min / max / clipped differences, and the four zeros of an all-empty reference -/
@@ -123,7 +127,8 @@ theorem compute_err_score_ragged (tp nr ne : List Int) (h : nr.sum ≠ 0) (hl : 
     Mir.Gen.multipitch.compute_err_score tp nr ne = .error .valueError := by
   unfold Mir.Gen.multipitch.compute_err_score
   have hq : ((nr.sum : Int) : Rat) ≠ 0 := by exact_mod_cast h
-  simp only [PyMP.vsum, decide_eq_true_eq, if_neg hq, PyMP.stackMin_error hl]
+  simp only [PyMP.vsum, decide_eq_true_eq, if_neg hq, PyMP.stackMin_error hl, PyMP.stackMax_error hl,
+    PyMP.stackMin_error (Ne.symm hl), PyMP.stackMax_error (Ne.symm hl)]
   rfl
 
 /-! ### `compute_num_true_positives` -/
